@@ -295,12 +295,18 @@ fn exec_scaling(ctx: &mut Ctx, spec: &RunSpec, idx: u64) -> RunResult {
     let generated = |s: &RunSpec| -> usize { s.stored_faults.iter().filter_map(|f| f.edit.as_ref()).map(|e| e.generated()).sum() };
     // an input that is refused after the work was done is a measurement too
     let measurable = |r: &RunResult| r.violations.is_empty() && !r.outcome.starts_with("harness");
-    // grow
+    // the size the site defines, and a quarter of it (growing the input may change its nature —
+    // 16-bit row counters wrap, declared limits are passed — so this pair is always judged too)
     let mut mult = 1u32;
     let mut large = exec_spec(ctx, &scaled(1, 1), idx);
     if !measurable(&large) {
         return large;
     }
+    let base_pair = {
+        let q = exec_spec(ctx, &scaled(1, 4), idx);
+        if measurable(&q) { Some(((q.cpu_us as i64).max(1000), large.cpu_us as i64)) } else { None }
+    };
+    // grow
     while (large.cpu_us as i64) < 1_000_000 && mult < 8 && generated(&scaled(mult * 2, 1)) <= 48 << 20 {
         let s = scaled(mult * 2, 1);
         let r = exec_spec(ctx, &s, idx);
@@ -317,12 +323,29 @@ fn exec_scaling(ctx: &mut Ctx, spec: &RunSpec, idx: u64) -> RunResult {
         mult *= 2;
         large = r;
     }
-    let small = exec_spec(ctx, &scaled(mult, 4), idx);
     large.phase = "scaling".into();
-    if !measurable(&small) {
-        return large;
+    let grown_pair = if mult > 1 {
+        let small = exec_spec(ctx, &scaled(mult, 4), idx);
+        if measurable(&small) { Some(((small.cpu_us as i64).max(1000), large.cpu_us as i64)) } else { None }
+    } else {
+        None
+    };
+    // the pair with the larger ratio among the measurable ones (>= 100 ms at the larger size)
+    let mut best: Option<(i64, i64, u32)> = None;
+    for (pair, m) in [(base_pair, 1u32), (grown_pair, mult)] {
+        if let Some((a, b)) = pair {
+            if b >= 100_000 && best.map_or(true, |(x, y, _)| (b as f64 / a as f64) > (y as f64 / x as f64)) {
+                best = Some((a, b, m));
+            }
+        }
     }
-    let (t1, t4) = ((small.cpu_us as i64).max(1000), large.cpu_us as i64);
+    let (t1, t4, mult) = match best {
+        Some(x) => x,
+        None => {
+            large.probes.push("scaling_largest_size_below_100ms".to_string());
+            return large;
+        }
+    };
     let ratio = t4 as f64 / t1 as f64;
     let kind = spec.stored_faults.iter().rev().find(|f| matches!(&f.edit, Some(Edit::Repeat { count, .. }) if *count >= 8000)).map(|f| erase_decimals(&f.why)).unwrap_or_default();
     // how the ratios are distributed is part of the evidence (rare-condition probes)
